@@ -46,7 +46,7 @@ CHECKS = {
             "Random MAC/IP/port values including degenerate ones, all segmentation classes plus duplicated/reordered deliveries, six timestamp styles stressing float rounding; "
             "15 000+ exported segments attributed per quick run; multi-connection scenes whose endpoints share hosts, ports or addresses (also the same two addresses under other MAC addresses per connection).",
             TRUST, "3/C07"),
-    "C08": ("fault_enumeration", "every prefix of a capture is run through the real program and compared with the export of the full capture (prefix + monotonicity per conversation and direction), on generated scenes and on the repository's real OpenSSL captures",
+    "C08": ("fault_enumeration", "every prefix of a capture is run through the real program and compared with the export of the full capture (prefix + monotonicity per conversation and direction), on generated scenes (single connections, mixed scenes, scenes following the demultiplexer's endpoint patterns with related initial sequence numbers, aborted connections) and on the repository's real OpenSSL captures",
             "All cut positions 0..N of each capture are enumerated (sampled to 120 positions only for captures longer than 120 packets in the quick tier).",
             TRUST, "3/C08"),
     "C09": ("exploration", "metamorphic runtime oracle: byte equality of the output file across ~25-60 deliveries of the same secret set (permutations, line ends, decorations, hex case, DSB placement/splitting, file+DSB, DSB only without -s from several working directories)",
@@ -69,10 +69,10 @@ CHECKS = {
     "C13": ("exploration", "differential runtime oracle: each connection exported with and without -a; subsequence test on data packets, record-by-record parse of the -a stream against the sender's record list, packet-boundary test for the hello records; QUIC per-datagram comparison",
             "Everything -a adds must be material the reference sender knows it sent (a type 20/21/22 record verbatim or the plaintext of an encrypted handshake/alert record).",
             TRUST, "3/C13"),
-    "C14": ("exploration", "runtime contract on the real split_cipher_suite, evaluated exhaustively over all 65 536 code points",
+    "C14": ("exploration", "runtime contract on the real split_cipher_suite and on the QUIC path's own resolver, evaluated exhaustively over all 65 536 code points; plus one real connection per (accepted suite, valid version) with a monitor on the record decryptor's constructor parameters and the export oracle",
             "Exhaustive enumeration of the whole input space of the real function under a post-condition derived from an independent frozen "
             "IANA registry copy and an independent structural name parser; the space is finite so this run is complete for the function, and the "
-            "same contract stays installed while the end-to-end checks run.",
+            "same contract stays installed while the end-to-end checks run. What the session makes of the resolved parameters is observed on 462 real TLS connections (bulk class, key / block / tag / MAC length the decryptor is constructed with; records of sub-block, one-block and multi-block length exported exactly) and on one QUIC connection per ordered (first offered, selected) suite pair.",
             "trusted: the frozen registry copy (cross-checked at setup against scapy's and dpkt's copies) and the harness's name parser", "3/C14"),
     "C16": ("exploration", "runtime monitor comparing the real get_full_packet_number with an integer transcription of RFC 9000 A.3 (direct state-driven calls exhaustive around every window boundary + interleaved histories)",
             "Real QuicSession objects are driven with stub packets over boundary-exhaustive (largest, length, truncated) grids for all six spaces and through "
